@@ -1,12 +1,14 @@
 #!/usr/bin/env python3
-"""Regenerate MANIFEST.json from tools/manifest_checks.json (one entry per claimed property) and properties.jsonl."""
-import json, os
+"""Regenerate MANIFEST.json (from tools/manifest_base.json + tools/manifest/Cxx.json fragments + properties.jsonl)
+and known_findings.json (concatenation of known_findings.d/*.json).  Run before committing; never at check time."""
+import glob, json, os
 here = os.path.dirname(os.path.dirname(os.path.abspath(__file__)))
-checks = json.load(open(os.path.join(here, "tools", "manifest_checks.json")))
+base = json.load(open(os.path.join(here, "tools", "manifest_base.json")))
+frags = [json.load(open(p)) for p in sorted(glob.glob(os.path.join(here, "tools", "manifest", "C*.json")))]
 props = [json.loads(l)["id"] for l in open(os.path.join(here, "properties.jsonl"))]
-claimed = {c["property_id"] for c in checks["checks"]}
+claimed = {c["property_id"] for c in frags}
 out_checks = []
-for c in checks["checks"]:
+for c in frags:
     pid = c["property_id"]
     out_checks.append({
         "property_id": pid,
@@ -19,15 +21,14 @@ for c in checks["checks"]:
         "level_note": c["note"],
         "technique": c.get("technique", "Lean 4 machine-checked proof about an executable model + correspondence check against the implementation"),
     })
-na = [{"property_id": p, "reason": checks.get("not_applicable", {}).get(p, "check not built yet in this tree (planned: Lean model + theorems + correspondence, DESIGN.md §7); not claimed until its check runs clean")} for p in props if p not in claimed]
-m = {
-    "version": 1,
-    "setup_cmd": "./check --setup",
-    "hooks": checks["hooks"],
-    "engines": checks["engines"],
-    "checks": out_checks,
-    "notes": checks["notes"],
-    "not_applicable": na,
-}
+na = [{"property_id": p, "reason": base.get("not_applicable", {}).get(p, "check not built yet in this tree (planned: Lean model + theorems + correspondence, DESIGN.md §7); not claimed until its check runs clean")} for p in props if p not in claimed]
+engines = base["engines"]
+for e in engines:
+    e["serves_properties"] = sorted(claimed)
+m = {"version": 1, "setup_cmd": "./check --setup", "hooks": base["hooks"], "engines": engines, "checks": out_checks, "notes": base["notes"], "not_applicable": na}
 json.dump(m, open(os.path.join(here, "MANIFEST.json"), "w"), indent=1)
-print(f"MANIFEST.json: {len(out_checks)} checks, {len(na)} not_applicable")
+kf = []
+for p in sorted(glob.glob(os.path.join(here, "known_findings.d", "*.json"))):
+    kf.extend(json.load(open(p)))
+json.dump(kf, open(os.path.join(here, "known_findings.json"), "w"), indent=1)
+print(f"MANIFEST.json: {len(out_checks)} checks, {len(na)} not_applicable; known_findings.json: {len(kf)} entries")
